@@ -172,13 +172,21 @@ static uint64_t run_op(int opv) {
       }
       break;
     }
-    case 6: {  // rotation / automorphism, in place and out of place
+    case 6: {  // rotation / automorphism, in place and out of place; the variants differ by p and by the limb counts too, so
+               // that threads inside the same shared module use different Galois elements / rotations at the same time
       const uint64_t n = NBIG;
-      int64_t *a = al(8 * 2 * n), *r = al(8 * 2 * n);
-      fill_small(a, 2 * n, &s, 60);
-      vec_znx_rotate(modBig, 77, r, 2, n, a, 2, n); h = fnv(h, r, 8 * 2 * n);
-      vec_znx_automorphism(modBig, 5, r, 2, n, r, 2, n); h = fnv(h, r, 8 * 2 * n);
-      vec_znx_rotate(modBig, -3, r, 2, n, r, 2, n); h = fnv(h, r, 8 * 2 * n);
+      const uint64_t nl = var == 0 ? 2 : var == 1 ? 5 : 8;
+      const int64_t pa = var == 0 ? 5 : var == 1 ? 4099 : -7, pr = var == 0 ? 77 : var == 1 ? -300 : 1234567;
+      int64_t *a = al(8 * nl * n), *r = al(8 * nl * n);
+      fill_small(a, nl * n, &s, 60);
+      vec_znx_rotate(modBig, pr, r, nl, n, a, nl, n); h = fnv(h, r, 8 * nl * n);
+      vec_znx_automorphism(modBig, 5, r, 2, n, r, 2, n); h = fnv(h, r, 8 * nl * n);
+      vec_znx_rotate(modBig, -3, r, 2, n, r, 2, n); h = fnv(h, r, 8 * nl * n);
+      for (int rep = 0; rep < 6; ++rep) {      // out of place, all limbs, small and big forms (several rounds: time spent inside)
+        vec_znx_automorphism(modBig, pa, r, nl, n, a, nl, n); h = fnv(h, r, 8 * nl * n);
+        vec_znx_big_automorphism(modBig, pa + 2 * rep, (VEC_ZNX_BIG*)a, nl, (const VEC_ZNX_BIG*)r, nl); h = fnv(h, a, 8 * nl * n);
+        vec_znx_big_rotate(modBig, pr + rep, (VEC_ZNX_BIG*)r, nl, (const VEC_ZNX_BIG*)a, nl); h = fnv(h, r, 8 * nl * n);
+      }
       free(a); free(r);
       break;
     }
